@@ -23,11 +23,13 @@ DropBlocker(c, b) == CanDropBlocker(st, c, b) /\ st' = DoDropBlocker(st, c, b).s
 Hardref(r)       == st' = DoHardref(st, r).s
 Backref(c, p)    == p \in st.slots /\ st' = DoBackref(st, c, p).s
 Backtrack(pos)   == pos < Len(st.plan) /\ st' = DoBacktrack(st, pos).s
+BacktrackCut(pos, stop) == pos < stop /\ stop <= Len(st.plan) /\ st' = DoBacktrackCut(st, pos, stop).s
 Next == \/ \E c \in ChoicePts, p \in Pkgs, f \in BOOLEAN : Add(c, p, f)
         \/ \E c \in ChoicePts, p \in Pkgs : Remove(c, p) \/ Replace(c, p) \/ Backref(c, p)
         \/ \E c \in ChoicePts, b \in Blockers : AddBlocker(c, b) \/ DropBlocker(c, b)
         \/ \E r \in Restrs : Hardref(r)
         \/ \E pos \in 0..MaxPlan : Backtrack(pos)
+        \/ \E pos \in 0..MaxPlan, stop \in 1..MaxPlan : BacktrackCut(pos, stop)
 Spec == Init /\ [][Next]_st
 Bound == Len(st.plan) <= MaxPlan
 
@@ -39,4 +41,8 @@ InvChoices  == ChoicesAreSlotted(st)
 \* a rollback lands exactly on the state the surviving prefix denotes
 RollbackExact == [][\A pos \in 0..MaxPlan :
                      (pos < Len(st.plan) /\ st' = DoBacktrack(st, pos).s) => st' = Replay(SubSeq(st.plan, 1, pos))]_st
+\* an interrupted rollback lands on the replay of the entries it did not get to
+CutExact == [][\A pos \in 0..MaxPlan, stop \in 1..MaxPlan :
+                (pos < stop /\ stop <= Len(st.plan) /\ st' = DoBacktrackCut(st, pos, stop).s)
+                   => st' = Replay(SubSeq(st.plan, 1, stop))]_st
 =========================================================================
